@@ -673,10 +673,21 @@ func C06(r *eng.Run) {
 	if cfg.NoFlush && r.T.Bool(sim.LCfg) {
 		cfg.PlainOnly = true
 	}
+	manyFrags := 0
+	if r.T.Chance(sim.LEntry, 1, 1500) {
+		// One message in very many fragments: a tiny buffer and a long copy
+		// (more fragments than an 8 or 16 bit counter can count).
+		cfg.Ctor, cfg.Size, cfg.NoFlush, cfg.PlainOnly = 1, 1+r.T.Int(sim.LSize, 3), false, false
+		manyFrags = []int{300, 70000, 140000}[r.T.Int(sim.LLen, 3)]
+		r.Probe("message_in_very_many_fragments")
+	}
 	cfg.SwapExt = !cfg.PlainOnly && r.T.Chance(sim.LCfg, 1, 4)
 	cfg.NoSide = !cfg.Client && r.T.Chance(sim.LCfg, 1, 8)
 	r.SetEntry("Writer/" + ctorNames[cfg.Ctor])
 	ops := drawHistory(r, cfg, 12)
+	if manyFrags > 0 {
+		ops = []WOp{{Kind: WOpReadFrom, N: manyFrags, Chunks: []int{manyFrags}, SrcEnd: r.T.Bool(sim.LFault)}, {Kind: WOpFlush}, {Kind: WOpWrite, N: 1}, {Kind: WOpFlush}}
+	}
 	seed := r.T.U32(sim.LPaySeed)
 	p := NewPipe(r, nil)
 	wr := &WRun{Cfg: cfg, Ops: ops, Pipe: p}
